@@ -259,28 +259,36 @@ func (st *State) primitive(f *ssa.Function, args []Val, site ssa.Instruction) (V
 		st.assumeRange(c, types.Typ[types.Uintptr])
 		return TV{c, types.Typ[types.Uintptr]}, true
 	case "encoding/json.Marshal":
-		vc.strLits["fun.jsonOk"] = "(Int) Bool"
+		// Marshal(v): either an error, or a byte slice b from which every scalar field of v can be decoded again:
+		//   dec.<Struct>.<field>(b) == field value   (payloads of type-parameter sort: == jsonrt(value), the JSON round trip)
+		vc.assumptionsUsed["encoding/json: Unmarshal(Marshal(v)) yields v field by field (payload: its JSON round trip jsonrt); Marshal fails or succeeds as a function of v"] = true
 		iv := st.termOf(args[0])
 		arr := st.allocRef("json")
 		ln := st.declare("jsonlen", SInt)
 		st.assume(tGe(ln, tInt(0)))
-		ok := app("jsonOk", SBool, iv)
+		vc.strLits["fun.jsonOk"] = "(Int) Bool"
+		ok := st.define("jsonok", app("jsonOk", SBool, iv))
 		errv := st.declare("jsonerr", SInt)
 		st.assume(tEq(tEq(errv, tInt(0)), ok))
-		vc.strLits["fun.jsonOf"] = "(Int) Int"
-		st.assume(tImp(ok, tEq(app("jsonOf", SInt, arr), iv)))
+		if di, has := st.dyn[iv.S]; has {
+			if sv, isS := di.val.(StructV); isS {
+				st.jsonFields(arr, sv, di.typ, "", ok)
+			}
+		}
 		res := f.Signature.Results()
 		sl := SliceV{tIte(ok, arr, tInt(0)), tInt(0), tIte(ok, ln, tInt(0)), tIte(ok, ln, tInt(0)), res.At(0).Type()}
 		return TupleV{[]Val{sl, TV{errv, res.At(1).Type()}}}, true
 	case "encoding/json.Unmarshal":
 		errv := st.declare("unmerr", SInt)
-		// writes through the pointer in the second argument
+		data, _ := args[0].(SliceV)
 		if tv, ok := args[1].(TV); ok {
-			vc.modules["iface"] = true
-			ptr := app("ptrof", SInt, tv.T)
-			_ = ptr
+			if di, has := st.dyn[tv.T.S]; has {
+				if el := derefType(di.typ); el != nil && classify(el) == kStruct {
+					p := st.asPtr(di.val, di.typ)
+					st.jsonDecodeInto(p, el, "", data.Arr, tEq(errv, tInt(0)))
+				}
+			}
 		}
-		vc.assumptionsUsed["encoding/json.Unmarshal modelled as: returns an error or fills the target with unconstrained values"] = true
 		return TV{errv, f.Signature.Results().At(0).Type()}, true
 	}
 	fail("primitive %s not implemented", n)
@@ -671,6 +679,60 @@ func (st *State) poolInvariant(p PtrV, v Val, isPut bool, site ssa.Instruction) 
 		} else {
 			st.assume(t)
 			vc.usedContracts["pool invariant "+p.Root+"."+p.Path+": "+fs[2]] = true
+		}
+	}
+}
+
+func jsonFun(structName, path, sort string) string {
+	return "dec." + structName + "." + path + "<" + sort + ">"
+}
+
+// jsonFields: record what can be decoded from the Marshal output arr.
+func (st *State) jsonFields(arr Term, sv StructV, t types.Type, prefix string, ok Term) {
+	vc := st.vc
+	s := resolveTP(t).Underlying().(*types.Struct)
+	name := rootName(t)
+	for i := 0; i < s.NumFields() && i < len(sv.F); i++ {
+		f := s.Field(i)
+		path := joinPath(prefix, f.Name())
+		switch fv := sv.F[i].(type) {
+		case TV:
+			fn := jsonFun(name, path, fv.T.Sort)
+			vc.strLits["fun."+fn] = "(Int) " + fv.T.Sort
+			val := fv.T
+			if strings.HasPrefix(fv.T.Sort, "TP_") {
+				rt := "jsonrt<" + fv.T.Sort + ">"
+				vc.strLits["fun."+rt] = "(" + fv.T.Sort + ") " + fv.T.Sort
+				val = app(smtIdent(rt), fv.T.Sort, fv.T)
+			}
+			st.assume(tImp(ok, tEq(app(smtIdent(fn), fv.T.Sort, arr), val)))
+		case StructV:
+			st.jsonFields(arr, fv, f.Type(), path, ok)
+		}
+	}
+}
+
+// jsonDecodeInto: on success the target's scalar fields are the decoded ones; on failure the target is unconstrained.
+func (st *State) jsonDecodeInto(p PtrV, t types.Type, prefix string, arr Term, ok Term) {
+	vc := st.vc
+	s := resolveTP(t).Underlying().(*types.Struct)
+	name := rootName(t)
+	for i := 0; i < s.NumFields(); i++ {
+		f := s.Field(i)
+		path := joinPath(prefix, f.Name())
+		np, _ := fieldPtr(p, f.Name())
+		switch classify(f.Type()) {
+		case kScalar:
+			srt := sortOf(f.Type())
+			fn := jsonFun(name, path, srt)
+			vc.strLits["fun."+fn] = "(Int) " + srt
+			nv := st.declare("dec", srt)
+			st.assume(tImp(ok, tEq(nv, app(smtIdent(fn), srt, arr))))
+			st.store(np, TV{nv, f.Type()})
+		case kStruct:
+			st.jsonDecodeInto(np, f.Type(), path, arr, ok)
+		default:
+			st.store(np, st.freshVal("dec", f.Type()))
 		}
 	}
 }
